@@ -89,7 +89,7 @@ static int h_connect(sn_conn *c) {
 static long h_send(sn_conn *c, const void *buf, size_t len) {
 	(void)c; (void)buf;
 	if (W.send_wouldblock) { W.send_wouldblock = 0; return -EWOULDBLOCK; }
-	if (W.send_partial) { W.send_partial = 0; return (long)(len / 2 ? len / 2 : 1); }
+	if (W.send_partial) { W.send_partial = 0; W.send_wouldblock = 1; return (long)(len / 2 ? len / 2 : 1); }   /* half is taken, then the socket buffer is full */
 	return (long)len;
 }
 static void h_after_send(sn_conn *c) {
@@ -311,10 +311,18 @@ static void check_returned(KSI_AsyncHandle *h) {
 		int explained = 0;
 		long since = 0;   /* cause flags are cleared at every quiescent point (see quiescent_reset) */
 		if (err >= 0x400 && err < 0x600) { cls = "service-status"; explained = W.cause_status > since; }
-		else if (err == KSI_NETWORK_SEND_TIMEOUT) { cls = "send-timeout"; explained = W.cfg.snd == 0 || difftime(sn_now, W.req[idx].add_time) > W.cfg.snd; }
+		else if (err == KSI_NETWORK_SEND_TIMEOUT) { cls = "send-timeout"; explained = W.cfg.snd == 0 || difftime(sn_now, W.req[idx].add_time) > W.cfg.snd;
+			/* a partly written request that is given up takes its connection with it */
+			if (explained) { int q; for (q = 0; q < SN_MAX_CONN; q++) if (sn_conns[q].state == SN_CLOSED_BY_CLIENT && sn_conns[q].out.n > sn_conns[q].parsed_out) W.cause_conn = (int)W.step + 1; } }
 		else if (err == KSI_NETWORK_RECIEVE_TIMEOUT) { cls = "receive-timeout"; explained = W.req[idx].sent_complete && (W.cfg.rcv == 0 || difftime(sn_now, W.req[idx].sent_time) > W.cfg.rcv); }
 		else if (err == KSI_NETWORK_CONNECTION_TIMEOUT) { cls = "connection-timeout"; explained = W.cause_connect_timeout > since; }
-		else if (err == KSI_NETWORK_ERROR || err == KSI_ASYNC_CONNECTION_CLOSED || err == KSI_IO_ERROR) { cls = "connection"; explained = W.cause_conn > since; }
+		else if (err == KSI_NETWORK_ERROR || err == KSI_ASYNC_CONNECTION_CLOSED || err == KSI_IO_ERROR) {
+			/* the connection went down: by the peer, or by the client itself when a request that was only partly written ran into its send
+			 * time-out (the stream can only be resumed on a new connection, so everything waiting on the old one fails with it) */
+			int k;
+			cls = "connection"; explained = W.cause_conn > since;
+			for (k = 0; k < W.nreq && !explained; k++) if (!W.req[k].is_conf && !W.req[k].returned && !W.req[k].sent_complete && (W.cfg.snd == 0 || difftime(sn_now, W.req[k].add_time) > W.cfg.snd)) explained = 1;
+		}
 		else { cls = "bad-data"; explained = W.cause_baddata > since || W.cause_status > since; }   /* malformed or unauthenticated data on the connection */
 		vf_outcome("returned:error:%s", cls);
 		if (!explained) { HF("error-without-cause", "request #%d returned with error 0x%x (%s) but no such cause occurred (status=%d baddata=%d conn=%d, now-add=%ld, sent=%d now-sent=%ld)", idx, err, cls, W.cause_status, W.cause_baddata, W.cause_conn, (long)(sn_now - W.req[idx].add_time), W.req[idx].sent_complete, (long)(sn_now - W.req[idx].sent_time)); W.violated = 1; }
